@@ -206,26 +206,35 @@ UpperHex(b) == (b >= 48 /\ b <= 57) \/ (b >= 65 /\ b <= 70)
 HexVal(b) == IF b >= 48 /\ b <= 57 THEN b - 48 ELSE IF b >= 65 /\ b <= 70 THEN b - 55 ELSE IF b >= 97 /\ b <= 102 THEN b - 87 ELSE -1
 Plain(b, isPath) == IF Unreserved(b) THEN TRUE ELSE isPath /\ b = 47
 EncByte(b, isPath) == IF Plain(b, isPath) THEN <<b>> ELSE <<37, HexU(b \div 16), HexU(b % 16)>>
-Enc(x, isPath) == LET acc[i \in 0..Len(x)] == IF i = 0 THEN <<>> ELSE acc[i - 1] \o EncByte(x[i], isPath) IN acc[Len(x)]
+(* halves are encoded separately: logarithmic nesting for TLC *)
+RECURSIVE Enc(_, _)
+Enc(x, isPath) == IF Len(x) = 0 THEN <<>>
+                  ELSE IF Len(x) = 1 THEN EncByte(x[1], isPath)
+                  ELSE LET h == Len(x) \div 2 IN Enc(SubSeq(x, 1, h), isPath) \o Enc(SubSeq(x, h + 1, Len(x)), isPath)
 
-(* decoding is partial: a '%' must be followed by two hex digits.  lower = some escape used a lower-case digit   *)
-RECURSIVE DecFrom(_, _, _, _)
-DecFrom(t, i, acc, lower) ==
-    IF i > Len(t) THEN [ok |-> TRUE, bytes |-> acc, lower |-> lower]
-    ELSE IF t[i] # 37 THEN DecFrom(t, i + 1, Append(acc, t[i]), lower)
-    ELSE IF i + 2 > Len(t) THEN [ok |-> FALSE, bytes |-> acc, lower |-> lower]
-    ELSE IF HexVal(t[i + 1]) < 0 \/ HexVal(t[i + 2]) < 0 THEN [ok |-> FALSE, bytes |-> acc, lower |-> lower]
-    ELSE DecFrom(t, i + 3, Append(acc, HexVal(t[i + 1]) * 16 + HexVal(t[i + 2])),
-                 lower \/ ~UpperHex(t[i + 1]) \/ ~UpperHex(t[i + 2]))
-Dec(t) == DecFrom(t, 1, <<>>, FALSE)
+(* Decoding is partial: every '%' must be followed by two hex digits ('%' is no hex digit, so escapes cannot       *)
+(* overlap in a well-formed text).  A position is covered when it is one of the two digits of an escape; the       *)
+(* m-th uncovered position gives the m-th output byte.  lower = some escape used a lower-case digit.              *)
+(* (UriMC.tla checks these closed forms against a left-to-right scanner.)                                          *)
+PercentAt(t) == {i \in 1..Len(t) : t[i] = 37}
+WellEscaped(t) == \A i \in PercentAt(t) : IF i + 2 <= Len(t) THEN HexVal(t[i + 1]) >= 0 /\ HexVal(t[i + 2]) >= 0 ELSE FALSE
+Covered(t, i) == IF i >= 2 /\ t[i - 1] = 37 THEN TRUE ELSE IF i >= 3 THEN t[i - 2] = 37 ELSE FALSE
+DecBytes(t) ==
+    LET pc == PercentAt(t)
+        starts == {i \in 1..Len(t) : ~Covered(t, i)}
+        rank == [i \in starts |-> i - 2 * Cardinality({j \in pc : j < i})]
+    IN [m \in 1..(Len(t) - 2 * Cardinality(pc)) |->
+          LET i == CHOOSE i \in starts : rank[i] = m
+          IN IF t[i] = 37 THEN HexVal(t[i + 1]) * 16 + HexVal(t[i + 2]) ELSE t[i]]
+Dec(t) == IF WellEscaped(t)
+          THEN [ok |-> TRUE, bytes |-> DecBytes(t),
+                lower |-> \E i \in PercentAt(t) : ~UpperHex(t[i + 1]) \/ ~UpperHex(t[i + 2])]
+          ELSE [ok |-> FALSE, bytes |-> <<>>, lower |-> FALSE]
 
 (* the encoded alphabet: unreserved characters, '/' for paths, and %XX with upper-case digits *)
-RECURSIVE ShapeFrom(_, _, _)
-ShapeFrom(e, i, isPath) ==
-    IF i > Len(e) THEN TRUE
-    ELSE IF e[i] = 37 THEN (IF i + 2 <= Len(e) THEN UpperHex(e[i + 1]) /\ UpperHex(e[i + 2]) /\ ShapeFrom(e, i + 3, isPath) ELSE FALSE)
-    ELSE Plain(e[i], isPath) /\ ShapeFrom(e, i + 1, isPath)
-Shape(e, isPath) == ShapeFrom(e, 1, isPath)
+Shape(e, isPath) ==
+    /\ \A i \in PercentAt(e) : IF i + 2 <= Len(e) THEN UpperHex(e[i + 1]) /\ UpperHex(e[i + 2]) ELSE FALSE
+    /\ \A i \in 1..Len(e) : (e[i] # 37 /\ ~Covered(e, i)) => Plain(e[i], isPath)
 
 IsPrefix(p, s) == IF Len(p) <= Len(s) THEN SubSeq(s, 1, Len(p)) = p ELSE FALSE
 Drop(s, n) == SubSeq(s, n + 1, Len(s))
